@@ -128,6 +128,16 @@ def blueGreenRefusesContinuous (w : World) (r : StepResult) : Bool :=
     else true
   | _, _ => true
 
+/-- **C02.ii** — only the user asks for a step jump: a reconcile that did not find a jump request in the
+    status never leaves one behind (whenever the controller moves the step index it also writes the
+    natural successor as next index). -/
+def noSelfJump (w : World) (r : StepResult) : Bool :=
+  match r.w.ro.sub with
+  | some s' =>
+    let hadNone : Bool := match w.ro.sub with | some s => !jumpRequested w.ro s | none => true
+    if hadNone && !r.roGone then !jumpRequested r.w.ro s' else true
+  | none => true
+
 /-- the step the status points at replaces every stable pod (partition-style canary) -/
 def fullStep (ro : Rollout) (s : Sub) (wl : WL) : Bool :=
   match ro.steps[(s.curIdx - 1).toNat]? with
@@ -154,6 +164,7 @@ def stepOracles (w : World) (r : StepResult) : List (String × Bool) :=
    ("C18.rollout_finalizer_guard", finalizerGuard w r),
    ("C10.rollback_first", rollbackFirst w r),
    ("C10.bluegreen_refuses_continuous", blueGreenRefusesContinuous w r),
-   ("C04.full_step_unpins_first", fullStepUnpinsFirst w r)]
+   ("C04.full_step_unpins_first", fullStepUnpinsFirst w r),
+   ("C02.no_self_jump", noSelfJump w r)]
 
 end RV.Oracle.RolloutSM
